@@ -414,6 +414,48 @@ class Program:
         return self.an[b.key]
 
 
+def _stable_root(body, rp):
+    """the place is rooted in a local that is written at most once (an argument or a single binding)"""
+    return rp is not None and len([d for d in body.defs().get(rp["l"], []) if not d[2]["d"]["p"]]) <= 1
+
+
+def _le_len_of(body, o, slice_rp, depth=3):
+    """operand o is structurally <= len(the slice at slice_rp): it is that slice's len(), or a min() with such a value"""
+    if depth < 0 or op_place(o) is None:
+        return False
+    org = origins(body, o)
+    if not org:
+        return False
+    for k, x in org:
+        if k != "call":
+            return False
+        n = x["f"].get("res") or x["f"].get("path") or ""
+        if re.search(r"<impl \[T\]>::len$", n) and x["a"] and root_place(body, x["a"][0]) == slice_rp:
+            continue
+        if re.search(r"cmp::Ord::min$|cmp::min$|as std::cmp::Ord>::min$", n) and any(_le_len_of(body, a, slice_rp, depth - 1) for a in x["a"]):
+            continue
+        return False
+    return True
+
+
+def _prefix_range(body, t):
+    """for an Index / IndexMut call on a slice with `..end` or `0..end`: (slice root place, end operand) when end <= len
+    is structurally evident, else None"""
+    if len(t["a"]) < 2 or not t["aty"] or not re.match(r"^&(mut )?\[", t["aty"][0]):
+        return None
+    rp = root_place(body, t["a"][0])
+    if not _stable_root(body, rp):
+        return None
+    rng = [x for k, x in origins(body, t["a"][1]) if k == "agg" and x.get("adt") in ("std::ops::RangeTo", "std::ops::Range")]
+    if len(rng) != 1 or len(origins(body, t["a"][1])) != 1:
+        return None
+    x = rng[0]
+    if x["adt"] == "std::ops::Range" and op_int(x["ops"][0]) != 0:
+        return None
+    end = x["ops"][-1]
+    return (rp, end) if _le_len_of(body, end, rp) else None
+
+
 def discharge(F, body, sites, an=None):
     """mark sites that the interval analysis proves cannot fire"""
     if not sites:
@@ -457,6 +499,34 @@ def discharge(F, body, sites, an=None):
             if isinstance(w, Wrap) and w.variants is not None and w.variants <= {"Some", "Ok"}:
                 s.discharged = True
                 s.why = "value is always %s" % sorted(w.variants)
+                continue
+        elif s.kind == "index" and len(t.get("aty") or []) > 1 and t["aty"][1] == "std::ops::RangeFull":
+            s.discharged = True
+            s.why = "indexing with the full range `..` cannot fail"
+            continue
+        elif s.kind == "index" and _prefix_range(body, t) is not None:
+            s.discharged = True
+            s.why = "prefix range whose end is min(.., len of the very slice indexed)"
+            continue
+        elif s.kind == "length-arg" and re.search(r"<impl \[T\]>::copy_from_slice$", t["f"].get("res") or t["f"].get("path") or "") and len(t["a"]) == 2:
+            # dst[..n].copy_from_slice(&src[..n]) with both prefixes proven in range: equal lengths
+            ends = []
+            for a in t["a"]:
+                cur, src = a, []
+                for _ in range(5):      # through re-borrows (&*x) to the call that produced the slice
+                    org = origins(body, cur)
+                    if len(org) == 1 and org[0][0] == "call":
+                        src = [org[0][1]]
+                        break
+                    if len(org) == 1 and org[0][0] == "ref" and all(e == "*" for e in org[0][1]["p"]["p"]):
+                        cur = {"c": {"l": org[0][1]["p"]["l"], "p": []}}
+                        continue
+                    break
+                pr = _prefix_range(body, src[0]) if len(src) == 1 and re.search(r"(Index|IndexMut)<.*>( for .*)?>::(index|index_mut)$", src[0]["f"].get("res") or src[0]["f"].get("path") or "") else None
+                ends.append([id(x) for k, x in origins(body, pr[1])] if pr else None)
+            if ends[0] and ends[0] == ends[1]:
+                s.discharged = True
+                s.why = "both slices are prefixes of the same proven length"
                 continue
         elif s.kind == "nonzero-arg":
             for pat, kind, ai in PANIC_CALLS:
